@@ -180,6 +180,26 @@ fn worker(rx: Receiver<Cmd>, tx: Sender<String>) {
                     if k % 8 == 0 {
                         // write traffic: re-install the thread's own mode
                         RoundingMode::set_default(own);
+                    } else if k % 8 == 4 {
+                        // ... and leave it for the initial mode and come back, while the other
+                        // threads do the same: transitions between "default" and "custom" racing
+                        // with each other must not lose anybody's mode
+                        RoundingMode::set_default(RoundingMode::RoundHalfEven);
+                        RoundingMode::set_default(own);
+                    }
+                }
+                // toggle storm: all threads switch between the initial mode and their own mode in a
+                // tight loop at the same time; right after re-installing its own mode a thread must
+                // read it back (the observations join those of the Get operation, index 0)
+                barrier.wait();
+                for _ in 0..TOGGLE_ITERS {
+                    RoundingMode::set_default(RoundingMode::RoundHalfEven);
+                    RoundingMode::set_default(own);
+                    let got = RoundingMode::default();
+                    if got != own {
+                        seen[0].insert(format!("mode {}", mode_index(got)));
+                        // and what rounding makes of it
+                        seen[1].insert(exec_op(ops[1].clone()).replace(['\n', ';', '|'], " "));
                     }
                 }
                 let parts: Vec<String> = seen.iter().map(|s| s.iter().cloned().collect::<Vec<_>>().join("|")).collect();
@@ -370,6 +390,7 @@ fn burst_ops() -> Vec<Op> {
 }
 
 const BURST_ITERS: u32 = 200;
+const TOGGLE_ITERS: u32 = 4000;
 
 impl Prop for C19 {
     type Case = Case;
@@ -379,8 +400,14 @@ impl Prop for C19 {
     fn pristine_run(&self) -> bool {
         false // every schedule / driver line owns its process and mode already
     }
+    fn max_shrink_iters(&self) -> u32 {
+        600 // every shrink step starts a process
+    }
+    fn replay_repeats(&self) -> u32 {
+        300 // the concurrent phase is scheduled by the operating system
+    }
     fn rule(&self) -> String {
-        "Generated schedules: up to 4 logical threads and a global sequence of up to 40 steps (thread, op) with op in {set_default(mode), default(), thread exit (joined; the same thread number then names a NEW thread), round, checked_round, div_rounded, mul_rounded, quantize, * with p+q > 18, /, checked_div, Display with precision, and operations that panic (division by zero, unrepresentable result) after which the thread must keep working}; in addition every thread carries a thread-local guard installed at thread start whose destructor reports default() / round / Display as seen while the thread exits; threads are real OS threads started lazily at their first step (so they start after others changed their mode) and driven in lock-step by the harness; every schedule is executed in a fresh child process (vcheck c19-exec), so no process-wide state survives from one schedule to the next; after the lock-step steps all threads of the schedule (if at least two) are released from a barrier and repeat 8 mode-sensitive operations 200 times truly concurrently, each under the mode its model says, and report every distinct output they saw - all must be the exact result under the thread's own mode. \
+        "Generated schedules: up to 4 logical threads and a global sequence of up to 40 steps (thread, op) with op in {set_default(mode), default(), thread exit (joined; the same thread number then names a NEW thread), round, checked_round, div_rounded, mul_rounded, quantize, * with p+q > 18, /, checked_div, Display with precision, and operations that panic (division by zero, unrepresentable result) after which the thread must keep working}; in addition every thread carries a thread-local guard installed at thread start whose destructor reports default() / round / Display as seen while the thread exits; threads are real OS threads started lazily at their first step (so they start after others changed their mode) and driven in lock-step by the harness; every schedule is executed in a fresh child process (vcheck c19-exec), so no process-wide state survives from one schedule to the next; after the lock-step steps all threads of the schedule (if at least two) are released from a barrier and repeat 8 mode-sensitive operations 200 times truly concurrently, each under the mode its model says (re-installing it, and switching to RoundHalfEven and back, every few iterations), followed by a tight loop of 4000 switches RoundHalfEven -> own mode per thread, all threads at once, each reading its mode back immediately, and report every distinct output they saw - all must be the exact result under the thread's own mode. \
          Operands are exact ties / near ties so the 8 modes give different answers. Oracle: model map thread -> mode (RoundHalfEven at thread start); every result must equal the exact result under the issuing thread's model mode; default() must return it. \
          Non-trivial: a set_default on one thread is followed by a rounding step on another thread whose model mode differs. Distinct: hash of the schedule."
             .into()
@@ -446,7 +473,16 @@ impl Prop for C19 {
                 }
             }
         } else {
-            run_in_fresh_process(case)
+            // a child that dies without answering every step is retried: only a death that
+            // repeats is attributed to the code under test (not to a transient lack of resources)
+            let mut r = run_in_fresh_process(case);
+            for _ in 0..2 {
+                if r.len() >= case.steps.len() {
+                    break;
+                }
+                r = run_in_fresh_process(case);
+            }
+            r
         };
         let mut model: BTreeMap<u8, Mode> = BTreeMap::new();
         let mut any_set = false;
